@@ -41,6 +41,123 @@ func checkC11(c *Check) {
 	for f := range sub.funcs {
 		c.SawFunc(f)
 	}
+	c11KeyAgreement(c)
+}
+
+// R3b: the key of the per-sender permit is computed the same way where it is taken and where it is given back: the
+// empty key exactly for the empty sender, the domain part of the sender otherwise; the give-back is not skipped
+// for the empty sender.
+func c11KeyAgreement(c *Check) {
+	c.Rule("R3b", "SMTP endpoint: the sender-domain key of TakeMsg / ReleaseMsg is \"\" exactly in the world 'sender is empty' and the domain of address.Split(sender) otherwise – at the take site and at the release site alike; with an empty sender the release is still performed", 2)
+	type site struct {
+		fn     string
+		isCall CallPred
+		argIdx int
+		take   bool
+	}
+	for _, st := range []site{
+		{"startDelivery", calling("~/internal/limits.Group.TakeMsg"), 2, true},
+		{"releaseLimits", calling("~/internal/limits.Group.ReleaseMsg"), 1, false},
+	} {
+		r := c.need("R3b", smtpEndpRel, "Session", st.fn)
+		if r == nil {
+			continue
+		}
+		info := r.Info
+		calls := r.Calls(st.isCall)
+		if len(calls) < 1 {
+			c.Fail("R3b", st.fn+":key", r.FI.Decl.Pos(), "undecided: the limiter call was not found")
+			continue
+		}
+		cp := calls[0]
+		call := r.CallAt(cp, st.isCall)
+		dom, _ := objOf(info, call.Args[st.argIdx]).(*types.Var)
+		// the sender: the field s.mailFrom at the release site; at the take site the variable later stored into it
+		isSender := func(e ast.Expr) bool {
+			e = ast.Unparen(e)
+			if fv := fieldOf(info, e); fv != nil && objName(fv) == "mailFrom" {
+				return true
+			}
+			if !st.take {
+				return false
+			}
+			o := objOf(info, e)
+			found := false
+			ast.Inspect(r.FI.Decl.Body, func(n ast.Node) bool {
+				if as, ok := n.(*ast.AssignStmt); ok && len(as.Lhs) == 1 && len(as.Rhs) == 1 {
+					if fv := fieldOf(info, as.Lhs[0]); fv != nil && objName(fv) == "mailFrom" && objOf(info, as.Rhs[0]) == o && o != nil {
+						found = true
+					}
+				}
+				return true
+			})
+			return found
+		}
+		world := func(empty bool) func(b *cfgBlock, i int) bool {
+			return r.F.World(func(atom ast.Expr) (bool, bool) {
+				if be, ok := ast.Unparen(atom).(*ast.BinaryExpr); ok && (be.Op == token.EQL || be.Op == token.NEQ) && isSender(be.X) {
+					if sv, ok := constString(info, be.Y); ok && sv == "" {
+						return (be.Op == token.EQL) == empty, true
+					}
+				}
+				return false, false
+			})
+		}
+		msg := ""
+		if dom == nil || dom.IsField() {
+			msg = "undecided: the key argument is not a local variable"
+		} else {
+			kinds := func(empty bool) (sawEmpty, sawSplit, sawOther bool) {
+				w := world(empty)
+				isDef := func(q Pt) bool { return q.Node() != nil && assignsObj(info, q.Node(), dom) }
+				for _, dp := range r.F.Points() {
+					if dp.Node() == nil || !isDef(dp) {
+						continue
+					}
+					if _, f := r.F.Reach(Query{From: []Pt{dp}, Target: func(q Pt) bool { return q == cp }, Avoid: func(q Pt) bool { return q != cp && isDef(q) }, AvoidEdge: w}); !f {
+						continue
+					}
+					if _, f := r.F.Reach(Query{From: r.Entry(), Inclusive: true, Target: func(q Pt) bool { return q == dp }, AvoidEdge: w}); !f {
+						continue
+					}
+					as, _ := dp.Node().(*ast.AssignStmt)
+					switch {
+					case as != nil && len(as.Rhs) == 1 && len(as.Lhs) == 1:
+						if sv, ok := constString(info, as.Rhs[0]); ok && sv == "" {
+							sawEmpty = true
+						} else {
+							sawOther = true
+						}
+					case as != nil && len(as.Rhs) == 1 && len(as.Lhs) == 3:
+						if sc, ok := ast.Unparen(as.Rhs[0]).(*ast.CallExpr); ok && isCall(info, sc, "~/framework/address.Split") && len(sc.Args) == 1 && isSender(sc.Args[0]) && objOf(info, as.Lhs[1]) == dom {
+							sawSplit = true
+						} else {
+							sawOther = true
+						}
+					default:
+						sawOther = true
+					}
+				}
+				return
+			}
+			e1, s1, o1 := kinds(true)
+			e2, s2, o2 := kinds(false)
+			switch {
+			case o1 || o2:
+				msg = "the sender-domain key is computed from something other than \"\" / address.Split(sender)"
+			case !e1 || s1:
+				msg = "for the empty sender the key is not the empty string"
+			case e2 || !s2:
+				msg = "for a non-empty sender the key is not the domain part of that sender (the permit is taken and given back under different keys: a sender-domain bucket leaks or is released although it was never taken)"
+			}
+			if msg == "" && !st.take {
+				if pth, f := r.F.Reach(Query{From: r.Entry(), Inclusive: true, Target: r.F.IsExitPt, Avoid: isPt(calls), AvoidEdge: world(true)}); f {
+					msg = "with the empty (null) sender the permits are not given back: " + r.F.Describe(pth)
+				}
+			}
+		}
+		c.Hold("R3b", st.fn+":key", r.Pos(cp), msg == "", msg)
+	}
 }
 
 // R6: a bucket looked up before an eviction pass is not used afterwards
